@@ -34,7 +34,12 @@ impl crate::client::conn::Connection<crate::Body> for TestConn {
         std::future::ready(Ok(http::Response::new(request.into_body())))
     }
     fn poll_ready(&mut self, _cx: &mut std::task::Context<'_>) -> std::task::Poll<Result<(), Self::Error>> {
-        if self.ready.load(std::sync::atomic::Ordering::SeqCst) { std::task::Poll::Ready(Ok(())) } else { std::task::Poll::Pending }
+        if self.ready.load(std::sync::atomic::Ordering::SeqCst) {
+            std::task::Poll::Ready(Ok(()))
+        } else {
+            _cx.waker().wake_by_ref(); // ask to be polled again soon: a busy connection may be polled many times
+            std::task::Poll::Pending
+        }
     }
     fn version(&self) -> http::Version { if self.share { http::Version::HTTP_2 } else { http::Version::HTTP_11 } }
 }
@@ -44,6 +49,22 @@ impl PoolableConnection<crate::Body> for TestConn {
     fn reuse(&mut self) -> Option<Self> {
         if self.share { Some(Self { id: self.id, share: true, open: self.open.clone(), ready: self.ready.clone() }) } else { None }
     }
+}
+/// protocol that turns a mock stream into a contract-honouring `TestConn` (exclusive unless the stream multiplexes)
+#[derive(Debug, Clone, Default)]
+pub(crate) struct TestProtocol;
+impl tower::Service<crate::client::conn::protocol::ProtocolRequest<MockStream, crate::Body>> for TestProtocol {
+    type Response = TestConn;
+    type Error = crate::client::conn::connection::ConnectionError;
+    type Future = std::future::Ready<Result<TestConn, Self::Error>>;
+    fn poll_ready(&mut self, _cx: &mut std::task::Context<'_>) -> std::task::Poll<Result<(), Self::Error>> { std::task::Poll::Ready(Ok(())) }
+    fn call(&mut self, req: crate::client::conn::protocol::ProtocolRequest<MockStream, crate::Body>) -> Self::Future {
+        use crate::client::pool::PoolableStream as _;
+        std::future::ready(Ok(TestConn::mk(req.transport.can_share())))
+    }
+}
+fn test_connector(t: MockTransport, proto: HttpProtocol) -> crate::client::conn::connector::Connector<MockTransport, TestProtocol, crate::Body> {
+    crate::client::conn::connector::Connector::new(t, TestProtocol, "mock://address".into_request_parts(), proto)
 }
 type TPool = Pool<TestConn, crate::Body, key::UriKey>;
 /// number of entries really retained (the list's own `len()` is code under test; the field is private to idle.rs)
@@ -236,10 +257,12 @@ async fn whenready_drop_open() {
     let t = pool.keys.lock().insert(example_key());
     let c = TestConn::h1();
     c.open.store(false, std::sync::atomic::Ordering::SeqCst);
-    drop(WhenReady { connection: Some(c), token: t, pool: pool.as_ref() });
+    drop(Pooled { connection: Some(c), token: t, pool: pool.as_ref() }); // hand-back task: ready at once, then dropped
+    for _ in 0..5 { tokio::task::yield_now().await; }
     assert!(pool.inner.lock().idle.get(&t).map(|l| l.len()).unwrap_or(0) == 0, "closed connection returned to the pool");
     let c = TestConn::h1();
-    drop(WhenReady { connection: Some(c), token: Token::zero(), pool: pool.as_ref() });
+    drop(Pooled { connection: Some(c), token: Token::zero(), pool: pool.as_ref() });
+    for _ in 0..5 { tokio::task::yield_now().await; }
     assert!(pool.inner.lock().idle.get(&Token::zero()).map(|l| l.len()).unwrap_or(0) == 0, "connection filed under the zero token");
 }
 
@@ -284,6 +307,18 @@ async fn pop_skips_expired() {
     pool.inner.lock().push(t, TestConn::h1(), pool.as_ref());
     std::thread::sleep(Duration::from_millis(80));
     assert!(pool.inner.lock().pop(t).is_none(), "pop handed out a connection idle for longer than the timeout");
+    // a fresh entry that the peer closed while idle must not make the pool hand out an older, expired one
+    let mut pool_cfg = cfg(5);
+    pool_cfg.idle_timeout = Some(Duration::from_millis(40));
+    let pool: TPool = Pool::new(pool_cfg);
+    let t = pool.keys.lock().insert(example_key());
+    pool.inner.lock().push(t, TestConn::h1(), pool.as_ref()); // old, stays open
+    std::thread::sleep(Duration::from_millis(120));
+    let fresh = TestConn::h1();
+    let fresh_open = fresh.open.clone();
+    pool.inner.lock().push(t, fresh, pool.as_ref());
+    fresh_open.store(false, std::sync::atomic::Ordering::SeqCst); // closed by the peer while idle
+    assert!(pool.inner.lock().pop(t).is_none(), "pop handed out an expired connection that sat behind a closed fresh one");
     // zero timeout = no expiry
     let mut pool_cfg = cfg(5);
     pool_cfg.idle_timeout = Some(Duration::ZERO);
@@ -366,7 +401,8 @@ async fn closed_not_handed_to_waiter() {
     pool.inner.lock().waiting.entry(t).or_default().push_back(tx);
     let c = TestConn::h1();
     c.open.store(false, std::sync::atomic::Ordering::SeqCst);
-    drop(WhenReady { connection: Some(c), token: t, pool: pool.as_ref() });
+    drop(Pooled { connection: Some(c), token: t, pool: pool.as_ref() });
+    for _ in 0..5 { tokio::task::yield_now().await; }
     assert!(rx.try_recv().is_err(), "closed (or upgraded) connection handed out again");
 }
 
@@ -508,5 +544,41 @@ async fn standin_preempted_dial() {
             assert!(!pool.inner.lock().connecting.contains(&token));
         }
         drop(got);
+    }
+}
+
+
+/// A.pool.origin_sweep [C06] (bounded stand-in for the key->token map and everything around it that is class A):
+/// every operation sequence of length <= 6 over two origins that differ only in scheme - {request A, request B,
+/// release the oldest held connection, release the newest held connection} - with exclusive (HTTP/1-like) mock
+/// connections: a request is never given a connection that was first dialled for the other origin.
+#[tokio::test]
+async fn standin_origin_sweep() {
+    const OPS: usize = 4;
+    const LEN: u32 = 6;
+    let keys = [example_key(), other_key()];
+    for code in 0..OPS.pow(LEN) {
+        let pool: TPool = Pool::new(cfg_bg(false));
+        let mut origin_of: std::collections::HashMap<usize, usize> = Default::default();
+        let mut held: std::collections::VecDeque<_> = Default::default();
+        let mut c = code;
+        let mut trace = vec![];
+        for _ in 0..LEN {
+            let op = c % OPS;
+            c /= OPS;
+            trace.push(op);
+            match op {
+                0 | 1 => {
+                    let got = tokio::time::timeout(Duration::from_secs(2), pool.checkout(keys[op].clone(), false,
+                        test_connector(MockTransport::single(), HttpProtocol::Http1))).await
+                        .expect("checkout hangs").expect("checkout fails");
+                    let o = *origin_of.entry(got.id()).or_insert(op);
+                    assert_eq!(o, op, "ops {trace:?}: a request for origin {op} was given connection {:?}, first dialled for origin {o}", got.id());
+                    held.push_back(got);
+                }
+                2 => { if let Some(p) = held.pop_front() { drop(p); for _ in 0..3 { tokio::task::yield_now().await; } } }
+                _ => { if let Some(p) = held.pop_back() { drop(p); for _ in 0..3 { tokio::task::yield_now().await; } } }
+            }
+        }
     }
 }
